@@ -15,5 +15,8 @@ CLAIMED = {
  "C10": ("exploration",
          "Every (sequence kind, length 0..5, index or slice-bound pair in [-len-3, len+3] plus extremes around +-2^63 and beyond plus non-integers, access form) incl. sections, !! !? !%, the accessor builtins and the write forms is run on the real interpreter and compared with Python list/bytes indexing and slicing.",
          GRID_NOTE, GRID_TECH, "DESIGN.md §4 C10"),
+ "C16": ("exploration",
+         "Integers of the boundary pool in both representations through str/$/print/format strings in base 2, 8, 10, 16, int(str), number(str), repr+eval and str_radix/int_radix in every base 2..36; the decimal/scientific/p-over-q grammar through rational; every byte string up to the length bound through hex, base64, gzip and utf8; every Unicode scalar value through chr/ord (thorough); every JSON-shaped value of depth <= 2 through json_encode/decode, literal syntax and repr+eval - all compared with Python's codecs.",
+         GRID_NOTE, GRID_TECH, "DESIGN.md §4 C16"),
 }
-NOT_YET = {("C%02d" % i): "check not built yet in this session (design in DESIGN.md §4); will be claimed when its explorer exists" for i in range(1, 18)}
+NOT_YET ={("C%02d" % i): "check not built yet in this session (design in DESIGN.md §4); will be claimed when its explorer exists" for i in range(1, 18)}
